@@ -473,6 +473,14 @@ class Exec:
             if spec:
                 raise Unsupported(f"None.{attr} in specification")
             self.need_not_none(base, st, node, f".{attr}")
+        if isinstance(base, ObjV) and attr == "__class__":
+            tag = base.fields.get("__cls__")
+            if tag is None:
+                return ClsV(base.cls)
+            tv = z3.simplify(tag)
+            if z3.is_int_value(tv):
+                return ClsV(self.world.cls_by_tag(tv.as_long()))
+            raise Unsupported(f"__class__ of an object of symbolic class at line {getattr(node, 'lineno', '?')}")
         if isinstance(base, ObjV):
             if attr in base.fields:
                 tag = base.fields.get("__cls__")
